@@ -164,6 +164,7 @@ class Field:
         self.extra = []         # attributes that are not forwarded-serde (doc comments, allow, forwarded allow/doc)
         self.split_attrs = False
         self.vis = "pub "
+        self.macro_ty = None    # `$tN` when the definition is produced by a macro_rules! expansion
 
     def key(self):
         # serde names a raw identifier without the r# prefix
@@ -600,7 +601,7 @@ def emit_fields_named(fields, indent, with_vis):
     for f in fields:
         for a in field_attr_lines(f):
             lines.append(indent + a)
-        lines.append("%s%s%s: %s," % (indent, f.vis if with_vis else "", f.name, f.ty))
+        lines.append("%s%s%s: %s," % (indent, f.vis if with_vis else "", f.name, f.macro_ty or f.ty))
     return lines
 
 
@@ -609,7 +610,7 @@ def emit_fields_tuple(fields, indent, with_vis):
     for f in fields:
         for a in field_attr_lines(f):
             lines.append(indent + a)
-        lines.append("%s%s%s," % (indent, f.vis if with_vis else "", f.ty))
+        lines.append("%s%s%s," % (indent, f.vis if with_vis else "", f.macro_ty or f.ty))
     return lines
 
 
@@ -626,6 +627,18 @@ def generics_decl(d):
 
 
 def emit_def(d):
+    # One non-generic definition in four reaches the derive through a `macro_rules!` expansion with
+    # `$t:ty` fragments for its field types (the tokens then arrive wrapped in invisible groups):
+    # the shape is the same, so the derived code has to be the same.
+    import zlib
+    fields = d.all_fields()
+    d.via_macro = bool(fields) and not d.params and zlib.crc32((d.name + "|" + "|".join(f.ty for f in fields)).encode()) % 4 == 0
+    macro_args = []
+    if d.via_macro:
+        for f in fields:
+            if f.ty not in macro_args:
+                macro_args.append(f.ty)
+            f.macro_ty = "$t%d" % macro_args.index(f.ty)
     derives = ["ConvertSaveload", "Clone", "PartialEq", "Debug"]
     if d.storage:
         derives.insert([0, 1, 4, 2][d.derive_order], "Component")
@@ -669,6 +682,11 @@ def emit_def(d):
                 lines += emit_fields_named(v.fields, "        ", False)
                 lines.append("    },")
         lines.append("}")
+    if d.via_macro:
+        head = "macro_rules! def_%s {\n    (%s) => {" % (d.name, ", ".join("$t%d:ty" % i for i in range(len(macro_args))))
+        lines = [head] + ["        " + l for l in lines] + ["    };", "}", "def_%s!(%s);" % (d.name, ", ".join(macro_args))]
+        for f in fields:
+            f.macro_ty = None
     d.source = "\n".join(lines)
     return d.source
 
@@ -968,6 +986,8 @@ def static_counters(gens):
             bump("types_depth_%d" % max([d.depth] + [i["depth"] for i in d.insts]))
             if d.storage:
                 bump("types_component_and_saveload")
+            if getattr(d, "via_macro", False):
+                bump("types_defined_through_macro_rules_ty_fragments")
             fields = d.all_fields()
             bump("fields", len(fields))
             c["max_fields_in_one_struct"] = max(c.get("max_fields_in_one_struct", 0),
